@@ -116,6 +116,10 @@ def check_cell(ctx, case, by_construction=False):
     obj, streams = build(kind, fmt_kind)
     _counter[0] += 1
     marker = "MK%dX" % _counter[0]
+    text_kind = case.get("text", "marker")
+    if text_kind != "marker":
+        # degenerate texts: the gate applies to them like to any other text
+        marker = {"empty": "", "newline": "\n", "blank": "  "}[text_kind]
     target = "err" if method.startswith("error") else "out"
     if method in ("clear", "overwrite"):
         # needs existing content: written with the gate open
@@ -146,6 +150,16 @@ def check_cell(ctx, case, by_construction=False):
         changed = after[target] != before[target]
         if quiet and changed:
             ctx.fail("gate", "C10.gate", case, "nothing written when quiet", after[target][len(before[target]):], sig="clear")
+        return
+    if text_kind != "marker":
+        changed = after[target] != before[target]
+        must_change = want and (text_kind != "empty" or "line" in method or method == "overwrite")
+        if changed and not want:
+            ctx.fail("gate", "C10.gate", case, "nothing written", after[target][len(before[target]):],
+                     sig=("%s.%s:%s-text" % (KINDS[kind], method, text_kind)))
+        elif must_change and not changed:
+            ctx.fail("gate", "C10.gate", case, "the text / line break is written", "stream unchanged",
+                     sig=("%s.%s:%s-text" % (KINDS[kind], method, text_kind)))
         return
     present = marker in (after[target] or "")
     if present != want:
@@ -260,6 +274,10 @@ def cells():
                         for flags in fl:
                             yield {"kind": kind, "method": method, "formatter": fmt_kind, "verbosity": verbosity,
                                    "flags": flags, "quiet": quiet}
+                            if method != "clear":
+                                for text in ("empty", "newline", "blank"):
+                                    yield {"kind": kind, "method": method, "formatter": fmt_kind, "verbosity": verbosity,
+                                           "flags": flags, "quiet": quiet, "text": text}
 
 
 def run(ctx):
@@ -279,7 +297,7 @@ def run(ctx):
     table = {}
     for c in cells():
         check_cell(ctx, c, by_construction=True)
-    ctx.exhaustive("gate", True, "object kinds x reflected methods x formatter x verbosity x flags x quiet")
+    ctx.exhaustive("gate", True, "object kinds x reflected methods x formatter x verbosity x flags x quiet x text {unique marker, empty, newline only, blanks}")
     options = [(si, fl, q, v) for si in (0, 1) for fl in (None, 1, 4) for q in (0, 1) for v in (0, 4)]
     ctx.parallel("shard_section_history", [(k, o) for k in ("plain", "ansi") for o in options])
     ctx.parallel("shard_setter_history", [(k, f, st_) for k in ("output", "output-section", "buffered-io") for f in ("plain", "ansi")
